@@ -232,6 +232,9 @@ func (ev *Evidence) finish(m *interp.Machine, prop *Property, wall time.Duration
 
 func (ev *Evidence) write() error {
 	dir := filepath.Join(verifDir, "evidence")
+	if d := os.Getenv("GOSYM_EVIDENCE_DIR"); d != "" {
+		dir = d // development runs (seeded changes, race builds) must not touch the committed evidence
+	}
 	if err := os.MkdirAll(dir, 0o755); err != nil {
 		return err
 	}
